@@ -8,6 +8,7 @@ from harness.common import build
 from . import facts18
 from . import translate
 from . import translate_args
+from . import translate_make
 
 ID = 'C18'
 HERE = os.path.dirname(os.path.abspath(__file__))
@@ -19,7 +20,7 @@ RULE = ('sorter cases: sequences of <=10 add/remove calls on a TopologicalSorter
         'configurator cases: add_tween HISTORIES (adds/re-adds interleaved with implicit() and requests through freshly '
         'made apps, with/without pyramid.tweens, autocommit / commit after each add / ONE commit per look with adds inside config.include and top-level overrides; names also in package-relative and pkg:attr spelling; directive calls positional, with None hints omitted, deriver name omitted), add_view_deriver, and '
         'add_view/route/subscriber_predicate with weighs_more_than/weighs_less_than hints, with a real request through '
-        'instrumented tweens/derivers/predicates; re-registrations hand over the VERY SAME object in part of the cases and '
+        'instrumented tweens/derivers/predicates, or PredicateList.make called directly with single / predvalseq / not_ values; re-registrations hand over the VERY SAME object in part of the cases and '
         'a third of all cases pass every name/hint as an equal-but-not-identical str object. non-trivial = some observed step is an error '
         'or an order of >=2 names with at least one constraint between present names; distinct by full case')
 ASSUMPTIONS = [
@@ -34,7 +35,7 @@ TRUSTED = [
     'mechanically, anything outside subset/table is a broken tie, never a guess',
     'hand-written REFERENCE model coq/Model/C18_base.v + C18.v: for remove/add/sorted, Tweens.add_explicit/add_implicit/'
     'implicit/__call__ and _apply_view_derivers it is no longer trusted (proved equal to the regenerated program); still '
-    'trusted and shape-pinned: add_default_* lists, PredicateList.make, get_predlist, Router.__init__, '
+    'trusted and shape-pinned: add_default_* lists, get_predlist, Router.__init__, '
     'is_nonstr_iter, is_string_or_iterable, as_sorted_tuple; the argument processing of add_view_deriver / _add_tween / '
     'add_tween and of the predicate directive chain (add_*_predicate -> _add_predicate -> PredicateList.add) is regenerated (translate_args.py) and proved equal to the model, its skipped plumbing statements are '
     'hashed (masked pins)',
@@ -58,15 +59,15 @@ LEVEL_TEXT = ('Machine-checked theorems about the program regenerated from src/p
               'internally, tweens and view derivers nest in list order with an explicit tween list winning; plus, on the reference '
               'model, cycle_iff_error in both directions, tween histories, predicate directives, the default deriver order '
               '(secured_view first) and, after any add_view_deriver calls, every deriver outside mapped_view (user callable innermost); the regenerated argument processing of add_view_deriver / _add_tween equals the model and '
-              'feeds the judged scenarios end to end (C18_gen_derivers_scenario_judged, C18_gen_tweens_history_add), likewise the predicate directive chain (C18_gen_pred_chain_is_spec, C18_gen_preds_scenario_judged); the executable wire '
+              'feeds the judged scenarios end to end (C18_gen_derivers_scenario_judged, C18_gen_tweens_history_add), likewise the predicate directive chain (C18_gen_pred_chain_is_spec, C18_gen_preds_scenario_judged); PredicateList.make regenerated and proved to create (= evaluate) the predicates in an order honouring every weighs_more_than/weighs_less_than constraint (C18_gen_make_order_respects); the executable wire '
               'judges accept every answer of the model (C18_wire_*_judged). Ties: generated = model theorems (no shape pins on the translated functions), regenerated '
-              'constants, 31 shape pins + 3 masked pins on the untranslated functions / statements, a structural fact on setup_registry, '
+              'constants, 30 shape pins + 4 masked pins on the untranslated functions / statements, a structural fact on setup_registry, '
               'differential run with the Coq judge on the implementation.')
 LEVEL_NOTE = ('Trusted: Coq kernel; the translator\'s primitive table (leaf claims about dict/list/set methods, the graph entry '
               'representation, the unchecked list.remove on order/req_* which is unreachable by C18_rep_reachable, the fuel = '
               'len(graph) of the while loop whose exhaustion is proved impossible); the hand-written model of the untranslated '
-              'functions (pinned); the directive translator\'s table; Python harness. The wire-level judges are proved over decoded cases '
-              '(the outermost run_C18 dispatch is not covered).')
+              'functions (pinned); the tables of the directive and make translators (pred.phash() opaque); Python harness (incl. the '
+              'include/override rule of batch histories). The wire-level judges are proved through the outermost run_C18 dispatch for tags 0-7 (not tag 8).')
 ALLOWED_AXIOMS = ()
 PROOF_TIMEOUT = 1500
 
@@ -94,7 +95,10 @@ def facts(src):
     gen2, aproblems, asummary = translate_args.translate_tree(src)      # directive argument processing
     problems += aproblems
     summary.update(asummary)
-    gen = gen + '\n' + gen2
+    gen3, mproblems, msummary = translate_make.translate_tree(src)       # PredicateList.make
+    problems += mproblems
+    summary.update(msummary)
+    gen = gen + '\n' + gen2 + '\n' + gen3
     return {'coq': facts18.emit(vals, gen), 'summary': summary, 'problems': problems}
 
 
@@ -376,7 +380,23 @@ def gen_preds(rng):
         adds.append([name, hint(True), hint(False)])
         if any(a[0] == name for a in adds[:-1]) and rng.random() < 0.5:
             adds[-1].append(1)                             # the same predicate object again, other hints
-    return _with_copies(rng, {'k': 'preds', 'kind': kind, 'adds': adds})
+    case = {'k': 'preds', 'kind': kind, 'adds': adds}
+    if rng.random() < 0.4:
+        # PredicateList.make directly: one value, a predvalseq of values, not_(value) per instrumented predicate
+        kw = []
+        for name in dict.fromkeys(a[0] for a in adds):
+            q = rng.random()
+            v = rng.randrange(1, 9)
+            kw.append([name, v if q < 0.55 else (-v if q < 0.7 else [rng.choice([1, -1]) * rng.randrange(1, 9)
+                                                                     for _ in range(rng.choice([0, 1, 2, 3]))])])
+        rng.shuffle(kw)
+        q = rng.random()
+        if q < 0.08:
+            kw.append(['zz', 1])                              # a keyword that names no predicate
+        elif q < 0.16 and len(kw) > 1:
+            kw.pop()                                          # values for a part of the predicates only
+        case['kw'] = kw
+    return _with_copies(rng, case)
 
 
 DV_DEFAULT = ['secured_view', 'csrf_view', 'owrapped_view', 'http_cached_view', 'decorated_view', 'rendered_view',
@@ -402,6 +422,8 @@ def gen_derivers(rng):
             return [h]
         return [h, rng.choice(['absent_deriver'] + DV_USER)] if q < 0.9 else [rng.choice(DV_USER), h]
 
+    if rng.random() < 0.6:
+        return _with_copies(rng, {'k': 'derivers', 'adds': _planned_derivers(rng, max(1, k), stock, listify)})
     for _ in range(k):
         r = rng.random()
         name = rng.choice(DV_USER) if r < 0.78 else (rng.choice(DV_DEFAULT) if r < 0.96 else rng.choice(['INGRESS', 'VIEW']))
@@ -434,6 +456,67 @@ def gen_derivers(rng):
         if any(a[0] == name for a in adds[:-1]) and rng.random() < 0.5:
             adds[-1].append(1)                             # the very same deriver object again, other hints
     return _with_copies(rng, {'k': 'derivers', 'adds': adds})
+
+
+DV_PLAN = ['secured_view', 'csrf_view', 'owrapped_view', 'http_cached_view', 'decorated_view', 'rendered_view',
+           'mapped_view']                                   # one linear order the stock declarations allow
+
+
+def _planned_derivers(rng, k, stock, listify):
+    """MOSTLY SATISFIABLE registrations: a target pipeline is drawn first (the stock order with the user derivers at
+    random places before mapped_view), then every registration gets hints that agree with it -- `under` names derivers
+    (or INGRESS) earlier in the plan, `over` later ones (or VIEW), in every input form, also with absent alternatives
+    next to a present one, forward references, re-registrations that MOVE a deriver, stock derivers re-added with their
+    stock hints; one registration in five is left to chance.  Most of these cases end in a sorted pipeline, so that the
+    order, mapped_view innermost and the enter/exit log are what is compared."""
+    users = rng.sample(DV_USER, min(len(DV_USER), rng.choice([1, 2, 2, 3, 4])))
+    plan = DV_PLAN[:-1]
+    for nm in users:
+        plan.insert(rng.randrange(len(plan) + 1), nm)
+    plan.append('mapped_view')
+    adds, todo = [], users[:]
+    rng.shuffle(todo)
+    todo = (todo + [rng.choice(users + DV_PLAN[:6]) for _ in range(k)])[:max(k, len(users))]
+    if rng.random() < 0.3:
+        todo = todo[:k]                                      # some planned user derivers stay unregistered (absent names)
+    final = set(DV_PLAN) | set(todo)
+    for nm in todo:
+        if nm in stock and nm not in users:
+            u, o = stock[nm]
+            adds.append([nm, listify(u), listify(o)])
+        else:
+            i = plan.index(nm)
+            if rng.random() < 0.08:
+                plan.remove(nm)                              # a re-registration moves the deriver
+                i = rng.randrange(len(plan))
+                plan.insert(i, nm)
+            before = [x for x in plan[:i] if x in final] + ['INGRESS']
+            after = [x for x in plan[i + 1:] if x in final] + ['VIEW']
+
+            def pick(cands, dflt, lo):
+                q = rng.random()
+                if q < 0.2 and ((dflt in cands) if lo else (dflt in cands)):
+                    return None                              # the default hint agrees with the plan
+                if q < 0.65:
+                    return listify(rng.choice(cands))
+                l = rng.sample(cands, min(len(cands), rng.choice([1, 2])))
+                if rng.random() < 0.4:
+                    l.insert(rng.randrange(len(l) + 1), rng.choice(['absent_deriver', 'PREVIEW_absent']))
+                return l
+            u = pick(before, 'decorated_view', True)
+            o = pick(after, 'rendered_view', False)
+            if u is None and o is not None and 'decorated_view' not in before:
+                u = 'INGRESS'
+            if o is None and 'rendered_view' not in after:
+                o = 'VIEW'
+            if u is None and 'decorated_view' not in before:
+                u = 'INGRESS'
+            adds.append([nm, u, o])
+        if rng.random() < 0.2:
+            adds[-1][1 + rng.randrange(2)] = rng.choice([None, rng.choice(DV_USER), 'absent_deriver', rng.choice(DV_PLAN)])
+        if any(a[0] == nm for a in adds[:-1]) and rng.random() < 0.5:
+            adds[-1].append(1)
+    return adds
 
 
 def generate(rng, tier, n):
@@ -527,6 +610,18 @@ def valid(case):
                     return False
                 if case['kind'] == 2 and a[0] in ('xhr', 'header'):
                     return False
+            if 'kw' in case:
+                names = [x[0] for x in case['kw']]
+                if len(set(names)) != len(names):
+                    return False
+                for n, v in case['kw']:
+                    if n not in PRED_USER + ['xhr', 'header', 'zz']:
+                        return False
+                    vs = v if isinstance(v, list) else [v]
+                    if not vs and not isinstance(v, list):
+                        return False
+                    if not all(isinstance(x, int) and not isinstance(x, bool) and x != 0 and abs(x) < 1000 for x in vs):
+                        return False
             return bool(case['adds'])
         if k == 'derivers':
             for a in case['adds']:
@@ -628,6 +723,9 @@ def to_wire(case):
     if k == 'tweens':
         return [2, [[n, _tw_id(n)] for n in case['explicit']], _events_wire(case)]
     if k == 'preds':
+        if 'kw' in case:
+            return [8, case['kind'], _adds_wire(case),
+                    [[n, ([1, list(v)] if isinstance(v, list) else [0, v])] for n, v in case['kw']]]
         return [6, case['kind'], _adds_wire(case)]
     return [4, _adds_wire(case)]
 
@@ -660,6 +758,13 @@ def from_wire(case, raw):
             out.append(o)
         return {'model': out, 'spec': 'judge'}
     if case['k'] == 'preds':
+        if 'kw' in case:
+            mk = raw[2]
+            if mk and mk[0] == 0:      # [0, order, preds, phash]: predicates as [name, factory id, value, notted, value-is-not_]
+                mk = [0, mk[1], [x[:4] for x in mk[2]]]
+            elif mk and mk[0] == 1:
+                mk = [1]
+            return {'model': [_canon_outcome(raw[0]), raw[1], mk], 'spec': 'judge'}
         return {'model': [_canon_outcome(raw[0]), raw[1]], 'spec': 'judge'}
     codes, fin = raw
     if fin[0] == 1:
@@ -884,6 +989,8 @@ def run_preds(case):
     predlist = config.get_predlist(kind)
     o = _observe_sorted(predlist.sorter.sorted, ident)
     ev = []
+    if 'kw' in case:
+        return _run_make(case, config, predlist, o)
     if o[0] == 0:
         kw = {n: 1 for n, v in o[1] if v > 0}
         log = tw.LOG
@@ -906,6 +1013,34 @@ def run_preds(case):
                 ev.append(x[1])
         del log[:]
     return [o, ev]
+
+
+def _run_make(case, config, predlist, o):
+    """PredicateList.make called directly (public method) with the keyword values of the case: a single value, a
+    predvalseq of values, a not_(value); observed: the order number and the predicates created, in order"""
+    from pyramid.registry import predvalseq
+    from pyramid.config import not_
+    from pyramid.predicates import Notted
+
+    def val(x):
+        return not_(-x) if x < 0 else x
+    kw = {n: (predvalseq([val(x) for x in v]) if isinstance(v, list) else val(v)) for n, v in case['kw']}
+    try:
+        order, preds, phash = predlist.make(config, **kw)
+    except _impl['CDE']:
+        return [o, [], [2]]
+    except _impl['CE'] as e:
+        msg = str(e)
+        return [o, [], [1] if msg.startswith('Unknown predicate values') else ([2] if msg.startswith('Unsatisfied') else ['EXC', msg[:60]])]
+    out, ev = [], []
+    for p in preds:
+        notted = isinstance(p, Notted)
+        q = p.predicate if notted else p
+        nm, ident = getattr(q, '_c18_name', '?'), getattr(q, '_c18_id', 0)
+        out.append([nm, ident, q.val if isinstance(q.val, int) else -1, 1 if notted else 0])
+        if ident > 0 and nm not in ev:
+            ev.append(nm)
+    return [o, ev, [0, order, out]]
 
 
 def run_derivers(case):
@@ -1003,7 +1138,7 @@ def verdicts(case, obs):
             return None if res is None else [False]
         return [bool(x) for x in res]
     if k == 'preds':
-        res = _judge_call([7, case['kind'], _adds_wire(case), obs])
+        res = _judge_call([7, case['kind'], _adds_wire(case), obs[:2]])
     else:
         codes, fin = obs
         res = _judge_call([5, _adds_wire(case), fin])
@@ -1029,7 +1164,21 @@ def _empty_alt_steps(case):
 FINDING_EMPTY = 'C18-empty-alternatives-stale-requirement'
 
 
+def _make_unjudged(case, obs):
+    """make-mode predicate cases the evaluation-order judge says nothing about: a keyword that names no predicate, or
+    values for only a part of the instrumented predicates (the judge compares with ALL instrumented names)"""
+    if case['k'] != 'preds' or 'kw' not in case or _has_exc(obs):
+        return False
+    o = obs[0]
+    if not (isinstance(o, list) and o and o[0] == 0):
+        return False                                  # the sorter's error is judged as always
+    inst = {n for n, v in o[1] if v > 0}
+    return {n for n, _ in case['kw']} != inst or any(isinstance(v, list) and not v for _, v in case['kw'])
+
+
 def spec_holds(case, obs, spec):
+    if _make_unjudged(case, obs):
+        return None
     v = verdicts(case, obs)
     if v is None:
         return None
@@ -1180,6 +1329,19 @@ def kinds(case, obs):
             out.append('preds-%s-hinted' % kind)
         if len(set(_add_ids(case))) < len(case['adds']):
             out.append('preds-readd-same-object')
+        if 'kw' in case:
+            out.append('preds-make-direct')
+            mk = obs[2] if isinstance(obs, list) and len(obs) > 2 else None
+            if isinstance(mk, list) and mk:
+                out.append('preds-make-%s' % {0: 'ok', 1: 'unknown-keyword', 2: 'sorter-error'}.get(mk[0], 'exc'))
+                if mk[0] == 0 and any(x[3] for x in mk[2]):
+                    out.append('preds-make-notted')
+                if mk[0] == 0 and len(mk[2]) > len({x[0] for x in mk[2]}):
+                    out.append('preds-make-several-values-of-one-predicate')
+            if any(isinstance(v, list) and not v for _, v in case['kw']):
+                out.append('preds-make-empty-predvalseq')
+            if _make_unjudged(case, obs):
+                out.append('preds-make-unjudged(partial-or-unknown-keywords)')
     else:
         codes, fin = obs if (isinstance(obs, list) and len(obs) == 2) else ([], ['?'])
         out.append('%s-adds%d' % (k, len(case['adds'])))
